@@ -139,17 +139,23 @@ def build(spec, fx, objects=None):
         rep = r.get(rk, "f64") if idx is None else (r.get(rk) or ["f64"] * len(spec[key]))[idx]
         return mat_dgm(fx["dgms"][i], rep)
 
+    def AB():
+        a_ = D("a")
+        if spec.get("same_object") and spec.get("a") == spec.get("b") and r.get("a", "f64") == r.get("b", "f64"):
+            return a_, a_                      # d(X, X) with one object passed twice
+        return a_, D("b")
+
     if fn in ("bottleneck", "wasserstein"):
         f = getattr(M["persim." + fn], fn)
-        a, b = D("a"), D("b")
+        a, b = AB()
         m = bool(spec.get("matching", False))
         return (lambda: f(a, b, matching=m)), [a, b], None
     if fn == "heat":
-        a, b = D("a"), D("b")
+        a, b = AB()
         sg = float(spec.get("sigma", 0.4))
         return (lambda: M["persim.heat"].heat(a, b, sigma=sg)), [a, b], None
     if fn == "sliced_wasserstein":
-        a, b = D("a"), D("b")
+        a, b = AB()
         Mn = int(spec.get("M", 10))
         return (lambda: M["persim.sliced_wasserstein"].sliced_wasserstein(a, b, M=Mn)), [a, b], None
     if fn == "persistent_entropy":
